@@ -80,6 +80,17 @@ class Ent:
             elif self.mode == "zeros":
                 pool = np.array([0, 0, 0, 1, 1, -1, 2, 1j, 0.5 - 0.5j])
                 a = pool[rng.integers(0, len(pool), size=shape)]
+            elif self.mode == "mixed-dtype":
+                # a family typed in by hand: operator 0 has integer entries (int64), operator 1 real ones (float64), the others complex
+                k = name[-1]
+                if k == "0" and name[0] in "ABK":
+                    a = rng.integers(-2, 3, size=shape).astype(np.int64)
+                    if not a.any():
+                        a.flat[0] = 1
+                elif k == "1" and name[0] in "ABK":
+                    a = rnd(rng, shape, "real")
+                else:
+                    a = rnd(rng, shape, "complex")
             elif self.mode == "ints":
                 a = (rng.integers(-3, 4, size=shape) + 1j * rng.integers(-3, 4, size=shape)).astype(complex)
             else:
